@@ -240,7 +240,8 @@ class Run:
         return [e for e in self.events if e.has_snap]
 
 
-def do_count(blt=None, options=None, profile=None, budget=2.0, snap_ballots=False, render=False, construct_also=None, options_object=None):
+def do_count(blt=None, options=None, profile=None, budget=2.0, snap_ballots=False, render=False, construct_also=None, options_object=None,
+             election_args=None):
     """
     parse (unless a profile is given), construct, count -- traced and budgeted.
     Exceptions raised by droop are captured in run.error with run.phase saying where.
@@ -259,7 +260,11 @@ def do_count(blt=None, options=None, profile=None, budget=2.0, snap_ballots=Fals
             run.phase = 'construct'
             tr.install()
             try:
-                E = Election(profile, options_object if options_object is not None else dict(run.options))
+                if election_args is not None:
+                    # the caller's way of handing over the configuration: () = no options argument at all, (None,), (dict,), (Options,)
+                    E = Election(profile, *election_args)
+                else:
+                    E = Election(profile, options_object if options_object is not None else dict(run.options))
                 run.E = E
                 run.cfg = ArithCfg(E.V)
                 run.mults = [raw(b.multiplier) for b in E.ballots]
